@@ -328,10 +328,13 @@ PROPS["C24"] = dict(
               "dict-of-value / list / ordered-set models with a real LMDB store for every store operation",
     trusted_base=["EXT: b'%032x' % ion is HEX32(ion): 32 characters without '.', int(HEX32(i), 16) == i; bytes.rsplit(sep, 1) splits at the rightmost separator; "
                   "everything inside LMDB (cursor order, set_range, delete) is outside the verifier's reach"],
-    assumptions=["the cursor scans getIoValFirst / getIoVals / popIoVal / remIoVals are under contract for <= 3 stored entries (symbolic content, cursor start arbitrary: bounded, not "
-                 "counted as proved); the add/put/pin scans and that LMDB's key order makes a key's entries contiguous are decided by the native bounded tier only"],
-    explanation="BOUNDED-SYMBOLIC (contracts/c24_scans.py, <= 3 entries with arbitrary io-keys and values, cursor landing anywhere): getIoValFirst / getIoVals / popIoVal / remIoVals read, "
-                "return and delete exactly the run of consecutive entries from the cursor whose unsuffixed key IS the requested key -- no entry of another key is ever returned or deleted. "
+    assumptions=["the eleven cursor operations of the insertion-ordered stores are under contract for <= 3 stored entries and <= 2 given values (symbolic content, cursor start arbitrary: "
+                 "bounded, not counted as proved); that LMDB's key order makes a key's entries contiguous is decided by the native bounded tier only",
+                 "ordered_set.OrderedSet modelled as a list of pairwise different values with membership by equality; lmdb transactions / cursors per the py-lmdb documentation"],
+    explanation="BOUNDED-SYMBOLIC (contracts/c24_scans.py, <= 3 entries with arbitrary io-keys and values, cursor landing anywhere): getIoValFirst / getIoVals / popIoVal / remIoVals / "
+                "remIoSetVal read, return and delete exactly (the first match in) the run of consecutive entries from the cursor whose unsuffixed key IS the requested key -- no entry of "
+                "another key is ever returned or deleted; addIoVal / putIoVals write the given values in order at the key's next ordinals, pinIoVals after erasing the key's entries; "
+                "addIoSetVal / putIoSetVals / pinIoSetVals write only values the key does not hold yet, each once, never overwriting. "
                 "PROVED: IoSuber and IoSetSuber delegate every add/put/pin/pop/rem/cnt to the matching list- or set-operation of the database, exactly once, on their own sub-database and key, every value serialized in order, the answer returned unchanged (contracts/c24_subers.py). PROVED for any key bytes (also keys containing or ending with the separator, or looking like another key's io-key) and any ordinal: suffix(key, ion) == key ++ '.' ++ "
                 "32 hex digits; unsuffix(suffix(key, ion)) == (key, ion); the encoding is injective, so io-keys of different (key, ordinal) pairs never collide. "
                 "BOUNDED: random sequences (<= 9) of put/pin/add/get/pop/rem/cnt on Suber, IoSuber, IoSetSuber over adversarial key sets (prefixes of each other, keys containing the "
